@@ -108,14 +108,22 @@ CLAIMED = {
             'Trusts from_int/from_rational/mpf_pow_int (C02/C03).',
             'DESIGN.md section 2, Engine B (B-R5)'),
     'C13': ('B-rounding-flow',
-            'static analysis: call-site rule over every use of the finite-only normaliser',
-            'Clause: no computed value is re-rounded by passing its fields to normalize()/normalize1(), '
-            'which turn inf/nan into 0 (two genuine defects repaired: acos/asin of complex nan/inf, '
-            'nthroot).  This is a necessary condition of "inf/nan arguments follow the documented '
-            'limits"; exactness of perfect powers and special points is a value question and is not '
-            'decided (the three seeded changes for this property are of that kind and are not detected).',
-            'none beyond the parser',
-            'DESIGN.md section 2, Engine B (B-R6)'),
+            'static analysis: call-site rule over every use of the finite-only normaliser; flow-sensitive '
+            'affine precision tracking of kernel intermediates (guard-bit contradiction rule); sibling '
+            'rule over the complex exp/trig family (real-axis delegation)',
+            'Clauses: (B-R6) no computed value is re-rounded by passing its fields to normalize()/'
+            'normalize1(), which turn inf/nan into 0 (two genuine defects repaired: acos/asin of complex '
+            'nan/inf, nthroot); (B-R7) inside the libmp kernels no inexact intermediate rounded at the '
+            'target precision itself feeds a computation that runs with guard bits - the contradiction '
+            'that makes exact cases (root(a**n, n), ...) miss their exact value; every comparable '
+            '(intermediate, consumer) pair is examined; (B-R8) each of the ten complex exp/trig kernels '
+            'hands an argument with exactly zero imaginary part to the real kernel at the caller\'s '
+            '(prec, rnd) before the imaginary part reaches any computation - what keeps tan/cot/sec/csc '
+            'finite next to the real poles for complex-typed real arguments.  Exactness of perfect powers '
+            'and special points as values is not decided.',
+            'Seeded change C13-3 (half-integer exponents no longer routed through sqrt in mpf_pow) is a '
+            'choice of algorithm and is not detected.',
+            'DESIGN.md section 2, Engine B (B-R6, B-R7, B-R8)'),
     'C10': ('B-rounding-flow',
             'static analysis: flow-sensitive abstract interpretation of the kernels (bounded '
             'disjunctive worlds, affine precision expressions, inter-procedural summaries), '
@@ -162,7 +170,7 @@ CLAIMED = {
             'interval functions are enclosures; every real kernel called with an explicit directed mode '
             'honours it at its final rounding on every path (found: loggamma negated after rounding, so '
             'iv.loggamma was inverted for x < 1.46 - repaired); the cos/sin outward perturbation has the '
-            'right shape; conversions round each endpoint outward.  NOT decided: choice of corner / '
+            'right shape; conversions round each endpoint outward; a packed interval is never used after one of its unpacked endpoints was recomputed (C-R9).  NOT decided: choice of corner / '
             'monotonicity region (one seeded change of that kind is not detected) and the accuracy of the '
             'transcendental kernels inside their guard bits.',
             'Trusts the monotonicity table (sa/iv_dir.py), the reasoned operand exemptions '
@@ -175,9 +183,10 @@ CLAIMED = {
             'outward on every path and every interval handed between interval functions is an enclosure '
             '(this pins the rounding direction of the corner values of mpci_gamma - a genuine defect in '
             'the real-axis-crossing case was repaired); the binary-operator machinery of iv.mpf/iv.mpc '
-            'passes operands in the right (reflected) order to the paired kernels.  NOT decided: corner '
-            'selection, the excluded region of gamma, value-level tightenings (two of three seeded changes '
-            'are of that kind and are not detected).',
+            'passes operands in the right (reflected) order to the paired kernels; a packed rectangle is never '
+            'used after one of its unpacked endpoints was recomputed and before it is rebuilt (C-R9, '
+            'sa/stale_pack.py).  NOT decided: corner selection, the excluded region of gamma, value-level '
+            'tightenings (seeded change C15-2 is of that kind and is not detected).',
             'Trusts C14\'s real interval functions and the monotonicity table.',
             'DESIGN.md section 2, Engine C'),
     'C16': ('F-order-abs',
